@@ -111,6 +111,18 @@ Theorem C05_source_pipeline_is_skeptical : forall n D, NoDup (map kz D) -> (fora
 Proof. exact src_c_pipeline. Qed.
 Print Assumptions C05_source_pipeline_is_skeptical.
 
+(* on a strongly consistent base the verifiability premise holds by itself *)
+Theorem C05_source_pipeline_on_consistent_bases : forall n D P, NoDup (map kz D) -> part_strict n D = Some P ->
+  forall isolve, (forall l, exists b, isolve l = Return b /\ (b = true <-> exists sg, csp_sat sg l = true)) ->
+  forall q weakly, exists vm fm base b,
+    py_CInference_compile_constraint n (nf_of D) (vd_of D) (fd_of D) tt [] [] = Return (tt, (vm, fm)) /\
+    py_CInference_translate n (bb_of D) vm fm = Return base /\
+    py_CInference_inference n isolve (bb_of D) tt base (nf_of D) q weakly tt = Return b /\
+    (selffulfilling n D = true -> b = false) /\
+    (selffulfilling n D = false -> (b = true <-> c_spec_prop n D q)).
+Proof. exact src_c_pipeline_consistent. Qed.
+Print Assumptions C05_source_pipeline_on_consistent_bases.
+
 Example birds_c : check_counter 4 birds [1;2;2;1] q_fp = true /\ search_counter 4 birds 3 q_wp = None
   /\ selffulfilling 4 birds = false.
 Proof. vm_compute. repeat split. Qed.
